@@ -343,10 +343,16 @@ func c11KeyEq(a, b c11Rep) bool {
 		return false
 	}
 	da, db := c11FullSortedDiags(a.Diags), c11FullSortedDiags(b.Diags)
-	if len(da) == 0 || len(db) == 0 {
-		return len(da) == 0 && len(db) == 0
+	// since fix 346020d the comparator reads the whole sorted lists (slices.CompareFunc)
+	if len(da) != len(db) {
+		return false
 	}
-	return da[0].First == db[0].First && da[0].Last == db[0].Last && da[0].Msg == db[0].Msg && da[0].Extra == db[0].Extra
+	for i := range da {
+		if da[i].First != db[i].First || da[i].Last != db[i].Last || da[i].Msg != db[i].Msg || da[i].Extra != db[i].Extra {
+			return false
+		}
+	}
+	return true
 }
 
 // cmpDiags order: columns, message, then Pos (rank)
@@ -594,6 +600,7 @@ func c11RuleText(r *rand.Rand, i int) string {
 	expr := pick(r, []string{"up == 0", "up{job=\"a\"} == 0", "sum(foo) by(job) > 0", "rate(errors_total[5m]) > 0", "foo / bar", "sum(" /* syntax */, "up",
 		"foo{job=~\"bar\"} > 0" /* promql/regexp */, "sum(foo) without(job) > 0", "sum(errors) / sum(requests) > 0.1" /* fragile */, "foo{job=~\"a\", instance=~\"b\"} == 1",
 		"absent(foo{job=\"x\"})", "count(foo) > 0 or count(bar) > 0", "sum(rate(foo[1m])) by(instance) > 0",
+		"sum(foo) by(cluster) > 0" /* aggregate keep */, "sum(foo{a=\"1\"}) by(job, instance, team) > 0" /* aggregate strip */, "sum(foo)", "count(bar) without(job, env) > 1",
 		"foo{job=~\"service_.*_prod\"} > 0" /* smelly regexp */, "sum(foo{instance=~\"a.*b.*c\", job=~\".+_prod\"}) > 1", "foo{job=~\"prod.*|staging.*\"} == 0"})
 	if r.Intn(2) == 0 {
 		fmt.Fprintf(&b, "  - alert: %s\n    expr: %s\n", name, expr)
@@ -693,8 +700,63 @@ func c11GenScenario(r *rand.Rand) c11Scenario {
 		}
 	}
 	cfg.WriteString(c11CheckSettings(r))
+	if r.Intn(3) == 0 {
+		cfg.WriteString(c11MultiBlocks(r))
+	}
 	sc.Config = cfg.String()
 	return sc
+}
+
+// regression scenario for fix 346020d (corpus/C11/aggregate-keep-two): an aggregate block with two labels to keep is two check
+// instances; on `sum(foo) by(cluster)` each reports one problem per rule, the two share their first diagnostic
+func c11AggregateTwoScenario(nrules int) c11Scenario {
+	var b strings.Builder
+	b.WriteString("groups:\n- name: g\n  rules:\n")
+	for i := 0; i < nrules; i++ {
+		fmt.Fprintf(&b, "  - record: r%d\n    expr: sum(foo) by(cluster)\n", i)
+	}
+	return c11Scenario{Files: map[string]string{"rules/0.yml": b.String()}, Kind: "aggregate-keep-two-witness",
+		Config: "rule {\n  aggregate \".+\" {\n    keep = [\"job\", \"instance\"]\n  }\n}\n"}
+}
+
+// c11MultiBlocks: configuration blocks under which ONE rule gets several reports of the same reporter from DIFFERENT check
+// instances (one instance per label / key / pattern): the reports tie on path, lines, reporter and often on summary and
+// on their first diagnostic, so that the later sort keys and the later diagnostics decide.
+func c11MultiBlocks(r *rand.Rand) string {
+	var b strings.Builder
+	labs := func() string {
+		pool := []string{"job", "instance", "cluster", "team", "env"}
+		r.Shuffle(len(pool), func(i, j int) { pool[i], pool[j] = pool[j], pool[i] })
+		n := 2 + r.Intn(3)
+		q := make([]string, n)
+		for i := range q {
+			q[i] = fmt.Sprintf("%q", pool[i])
+		}
+		return strings.Join(q, ", ")
+	}
+	if r.Intn(2) == 0 {
+		fmt.Fprintf(&b, "rule {\n  aggregate \".+\" {\n    keep = [%s]\n  }\n}\n", labs())
+	}
+	if r.Intn(2) == 0 {
+		fmt.Fprintf(&b, "rule {\n  aggregate \".+\" {\n    strip = [%s]\n  }\n}\n", labs())
+	}
+	if r.Intn(2) == 0 { // several required labels / annotations, same severity and comment
+		for _, k := range []string{"team", "env", "owner"}[:2+r.Intn(2)] {
+			fmt.Fprintf(&b, "rule {\n  label %q {\n    required = true\n  }\n}\n", k)
+		}
+	}
+	if r.Intn(2) == 0 {
+		for _, k := range []string{"summary", "runbook", "dashboard"}[:2+r.Intn(2)] {
+			fmt.Fprintf(&b, "rule {\n  match {\n    kind = \"alerting\"\n  }\n  annotation %q {\n    required = true\n  }\n}\n", k)
+		}
+	}
+	if r.Intn(2) == 0 { // several reject patterns hitting the same value
+		b.WriteString("rule {\n  reject \".*a.*\" {\n    label_values = true\n    annotation_values = true\n  }\n  reject \"[a-z]+\" {\n    label_values = true\n    label_keys = true\n  }\n}\n")
+	}
+	if r.Intn(2) == 0 {
+		b.WriteString("rule {\n  for {\n    min = \"2m\"\n  }\n  keep_firing_for {\n    min = \"3m\"\n  }\n}\n")
+	}
+	return b.String()
 }
 
 // c11CheckSettings: `check "<name>" { ... }` blocks with non-default values for the checks that have settings. The decoded
@@ -716,7 +778,7 @@ func c11CheckSettings(r *rand.Rand) string {
 func c11BulkScenario(r *rand.Rand, nrules int, smelly bool) c11Scenario {
 	exprs := []string{"foo{job=~\"service_.*_prod\"} > 0", "sum(foo{instance=~\"a.*b.*c\"}) > 1", "up == 0", "foo{job=~\"bar\"} > 0", "sum(errors) / sum(requests) > 0.1",
 		"sum(rate(foo[1m])) without(job) > 0", "foo{job=~\".+_prod\", cluster=~\"eu.*west.*\"} == 0", "up", "absent(foo{job=\"x\"})", "foo / bar",
-		"count(foo{job=~\"a.*b\"}) > 0 or count(bar{job=~\"c.*d\"}) > 0"}
+		"count(foo{job=~\"a.*b\"}) > 0 or count(bar{job=~\"c.*d\"}) > 0", "sum(foo) by(cluster) > 0", "sum(foo) by(cluster, env, job) > 0"}
 	var b strings.Builder
 	b.WriteString("groups:\n- name: bulk\n  rules:\n")
 	for i := 0; i < nrules; i++ {
@@ -740,7 +802,7 @@ func c11BulkScenario(r *rand.Rand, nrules int, smelly bool) c11Scenario {
 		"check \"promql/series\" {\n  lookbackRange = \"3d\"\n  lookbackStep = \"10m\"\n  ignoreMetrics = [\"foo.*\"]\n  fallbackTimeout = \"1m\"\n}\n" +
 		"rule {\n  label \"team\" {\n    required = true\n    severity = \"warning\"\n  }\n}\n" +
 		"rule {\n  match {\n    kind = \"alerting\"\n  }\n  annotation \"summary\" {\n    required = true\n  }\n  for {\n    min = \"2m\"\n  }\n}\n" +
-		"rule {\n  aggregate \".+\" {\n    keep = [\"job\"]\n  }\n  reject \".*prod.*\" {\n    label_values = true\n  }\n  name \"Bulk.*|job:.*\" {\n  }\n}\n"
+		"rule {\n  aggregate \".+\" {\n    keep = [\"job\", \"instance\"]\n  }\n  aggregate \".+\" {\n    strip = [\"cluster\", \"env\"]\n  }\n  reject \".*prod.*\" {\n    label_values = true\n  }\n  name \"Bulk.*|job:.*\" {\n  }\n}\n"
 	return c11Scenario{Files: map[string]string{"rules/0.yml": b.String()}, Config: cfg, Kind: fmt.Sprintf("bulk(smelly=%v)", smelly)}
 }
 
@@ -1116,7 +1178,7 @@ func runC11(args []string) int {
 		bulkN, ciN = 330, 1500
 	}
 	scens := []c11Scenario{c11TieScenario(6), c11TieScenario(40), c11PosTieScenario(1), c11PosTieScenario(12),
-		c11BulkScenario(r, bulkN, false), c11BulkScenario(r, bulkN, true), c11CIScenario(r, ciN)}
+		c11BulkScenario(r, bulkN, false), c11BulkScenario(r, bulkN, true), c11CIScenario(r, ciN), c11AggregateTwoScenario(1), c11AggregateTwoScenario(16)}
 	nfixed := len(scens)
 	for len(scens) < nscen {
 		if len(scens)%6 == 5 {
@@ -1261,6 +1323,35 @@ func runC11(args []string) int {
 			}
 		}
 		rep.hist(fmt.Sprintf("real:J-loc=%v", jloc))
+		// which reporters give ONE rule several reports from DIFFERENT jobs (check instances) in this scenario, and whether
+		// two of them tie on the seven scalar keys and share the first diagnostic (what the pre-346020d comparator could not order)
+		jobOf := make([]int, len(stream))
+		for jn, ix := range jidx {
+			for _, k := range ix {
+				jobOf[k] = jn
+			}
+		}
+		multi, tieFirst := map[string]bool{}, map[string]bool{}
+		for i := range desc {
+			for j := i + 1; j < len(desc); j++ {
+				a, b := desc[i], desc[j]
+				if jobOf[i] == jobOf[j] || a.Path != b.Path || a.Rule != b.Rule || a.Reporter != b.Reporter {
+					continue
+				}
+				multi[a.Reporter] = true
+				da, db := c11FullSortedDiags(a.Diags), c11FullSortedDiags(b.Diags)
+				if a.LFirst == b.LFirst && a.LLast == b.LLast && a.Sev == b.Sev && a.Summary == b.Summary && a.Details == b.Details &&
+					len(da) > 0 && len(db) > 0 && da[0] == db[0] && !reflect.DeepEqual(da, db) {
+					tieFirst[a.Reporter] = true
+				}
+			}
+		}
+		for k := range multi {
+			rep.hist("real:several-jobs-report-one-rule:" + k)
+		}
+		for k := range tieFirst {
+			rep.hist("real:tie-on-keys-and-first-diagnostic:" + k)
+		}
 		np := nperm
 		if !(h1 && h2) {
 			np = nperm * 4 // hypotheses fail on a real stream: search harder
